@@ -6,7 +6,7 @@ ids="$@"; [ -z "$ids" ] && ids=$(ls seeded)
 for id in $ids; do
   for m in seeded/$id/*/; do
     [ -f "$m/patch.diff" ] || continue
-    r=$(tools/selftest.sh $id $m/patch.diff $tier 2>&1 | grep -E "^(CAUGHT|MISSED|patch does not apply)" | tail -1)
+    r=$(tools/selftest.sh $id $m/patch.diff $tier 2>&1 | grep -aE "^(CAUGHT|MISSED|patch does not apply)" | tail -1)
     sig=$(ls replays/$id 2>/dev/null | head -3 | tr '\n' ' ')
     echo "$id $(basename $m) $tier: $r  [$sig]"
     rm -rf replays/$id
